@@ -5,6 +5,7 @@ func init() {
 		ID:    "C08",
 		Title: "Lexing and parsing terminate on every input and end in a program or an error",
 		Rules: []string{
+			"R-ERRLINE: every error the parser records takes its line from the ErrorLine() of a token (never 0, the library's \"no line\")",
 			"R-BLOCK: no go statement, channel send / receive or select in the functions that lex, parse and load (parsing is never waited on)",
 			"R-NILRET: on the load path the result of a parse is used only after its errors were tested",
 			"R-SHARED-RW: no package-level variable is both written and read on the render paths (state kept between calls: a shared environment for data-less renders, a cache of converted data or parsed programs)",
@@ -22,6 +23,7 @@ func init() {
 		NotDecided:  "TODO",
 		Assumptions: trustedBase,
 		Run: func(m *Model, s *Sink) {
+			m.RunErrLine(s, "R-ERRLINE")                                     // the error a rejected template yields carries a line: every parser error takes it from the ErrorLine() of a token (1-based)
 			m.RunNoBlocking(s, "R-BLOCK", m.reachableFns(m.Roots().Load))    // nothing on the load path can wait: no goroutines, channel operations or selects
 			m.RunNilRet(s, "R-NILRET", m.reachableFns(m.Roots().Load))       // a nil program is not touched before its errors were tested
 			m.RunCodeEnd(s, "R-DELIM")                                       // a token that may end embedded code is not skipped silently where a statement is expected
